@@ -172,6 +172,9 @@ func peekBelief(c *Ctx, rule string, floor int) {
 	p := c.P
 	o := c.Obl(rule, "vnet.chunkQueue.peek", "every result of peek() is nil-tested, or type-asserted with comma-ok, before any use that would panic on an empty queue", floor)
 	for _, f := range p.Funcs {
+		if isPrivateHelper(f) && !unitExclude[f] {
+			continue // analysed as part of the functions that call it
+		}
 		if pkgOf(f) != "vnet" {
 			continue
 		}
@@ -488,6 +491,9 @@ func runC15(c *Ctx) {
 	// who may forward
 	nFwdSites := 0
 	for _, f := range p.Funcs {
+		if isPrivateHelper(f) && !unitExclude[f] {
+			continue // analysed as part of the functions that call it
+		}
 		if pkgOf(f) != "vnet" {
 			continue
 		}
